@@ -1,0 +1,36 @@
+//go:build verif
+
+// Contracts for package scenario (scenario ammo provider), checked by /verif/govc. Comment-only: no code.
+package scenario
+
+//@ iface ProvAmmo.Clone
+//@ ensures result != nil
+//@ modifies nothing
+//@ iface ProvAmmo.SetID
+
+// Entry number j (from 0) sent is ammos[j mod n]; sending stops exactly at the first bound reached, without error, and the
+// sink is closed on every exit.
+//@ func (p *Provider) Run
+//@ props C08 C15
+//@ nilsafe
+//@ requires p.sink != nil && !closed(p.sink) && ctx != nil
+//@ ghost n = len(p.ammos)
+//@ ghost sent0 = sent(p.sink)
+//@ loop 0 invariant p.sink == old(p.sink) && length == n && n > 0 && p.ammos == old(p.ammos)
+//@ loop 0 invariant [delivered-count] ammoNum == sent(p.sink) - sent0 && ammoNum >= 0
+//@ loop 0 invariant [never-beyond-the-bounds] imp(p.cfg.Passes != 0, ammoNum / n < p.cfg.Passes || (ammoNum / n == p.cfg.Passes && ammoNum % n == 0)) && imp(p.cfg.Limit != 0, ammoNum <= p.cfg.Limit)
+//@ loop 0 step [cancellation-is-noticed-in-every-iteration] !iter(done(ctx))
+//@ at send p.sink assert [listed-order-wrapping-around] value == p.ammos[(sent(p.sink) - sent0) % n]
+//@ ensures [sink-closed-on-every-exit] closed(old(p.sink))
+//@ ensures [no-ammo-is-an-error] imp(n == 0, result == decoders.ErrNoAmmo)
+//@ ensures [bounds-reached-is-a-clean-end] imp(n > 0 && !done(ctx), result == nil)
+//@ ensures [clean-end-only-at-a-bound] imp(result == nil, (p.cfg.Passes != 0 && (sent(p.sink) - sent0) / n == p.cfg.Passes && (sent(p.sink) - sent0) % n == 0) || (p.cfg.Limit != 0 && sent(p.sink) - sent0 == p.cfg.Limit) || done(ctx))
+
+// Every instance gets its own clone of the scenario with a new id.
+//@ func (p *Provider) Acquire
+//@ props C08 C10 C11
+//@ nilsafe
+//@ ensures [end-of-ammo-when-the-sink-is-closed] imp(!result_of(<-p.sink, 1), result0 == nil && !result1)
+//@ ensures [a-private-clone] imp(result_of(<-p.sink, 1), result1 && calls(ammo.Clone) == 1 && result0 == box(result_of(ammo.Clone, 0)))
+//@ at call ammo.Clone assume [the-sink-carries-decoded-scenarios] arg(recv) != nil
+//@ at call clone.SetID assert [a-new-id] arg(id) == result_of(p.NextID, 0)
